@@ -59,21 +59,21 @@ def _drain(con, acc, prop, case):
             acc.count('cross_' + p + '_' + kind)
 
 
-def run_case(prog, init, pattern, acc, con, lib, fuel=4000, limit=60000, respell=None):
+def run_case(prog, init, pattern, acc, con, lib, fuel=4000, limit=60000, respell=None, debug=False):
     text = '\n'.join(pp(prog))
     if respell is not None:
         text = layout.respell(text, random.Random(respell), 0.4)
-    case = {'prog': prog, 'init': refval.enc(init), 'pattern': pattern, 'respell': respell}
-    verdict, real, _ = exec_prog.compare_case(prog, init, pattern, acc, 'C01', lib, text=text, case=case, fuel=fuel, limit=limit)
+    case = {'prog': prog, 'init': refval.enc(init), 'pattern': pattern, 'respell': respell, 'debug': debug}
+    verdict, real, _ = exec_prog.compare_case(prog, init, pattern, acc, 'C01', lib, text=text, case=case, fuel=fuel, limit=limit, debug=debug)
     if verdict == 'violation' and acc.nviol <= 3:
         # shrink the violating program (greedy statement deletion while the verdict stays "violation") and report the small one too
         from ..core import Acc
 
         def still(p2):
-            return exec_prog.compare_case(p2, init, pattern if pattern is None else list(pattern), Acc('C01'), 'C01', lib, fuel=fuel, limit=limit)[0] == 'violation'
+            return exec_prog.compare_case(p2, init, pattern if pattern is None else list(pattern), Acc('C01'), 'C01', lib, fuel=fuel, limit=limit, debug=debug)[0] == 'violation'
         small = exec_prog.shrink(prog, still)
         if len(pp(small)) < len(pp(prog)):
-            exec_prog.compare_case(small, init, pattern, acc, 'C01', lib, case={'prog': small, 'init': refval.enc(init), 'pattern': pattern, 'shrunk': True}, fuel=fuel, limit=limit)
+            exec_prog.compare_case(small, init, pattern, acc, 'C01', lib, case={'prog': small, 'init': refval.enc(init), 'pattern': pattern, 'shrunk': True, 'debug': debug}, fuel=fuel, limit=limit, debug=debug)
     _drain(con, acc, 'C01', case)
     nontrivial = bool(real and real.get('logs')) and any(k in text for k in ('while ', 'for ', 'if '))
     acc.case((text, repr(sorted(case['init'].items(), key=str)) if isinstance(case['init'], dict) else '', pattern), nontrivial)
@@ -143,7 +143,10 @@ def run_shard(spec, acc):
                 prog = gen_prog.rename(prog, mapping)
                 init = {mapping.get(k, k): v for k, v in init.items()}
                 acc.count('keyword_prefixed_identifier_programs')
-            run_case(prog, init, None, acc, con, lib, respell=(base + i) if rnd.random() < 0.2 else None)
+            dbg = rnd.random() < 0.15  # debug mode only ADDS report lines for failing calls; control flow is the same
+            if dbg:
+                acc.count('debug_mode_programs')
+            run_case(prog, init, None, acc, con, lib, respell=(base + i) if rnd.random() < 0.2 else None, debug=dbg)
             for f in gen.features:
                 acc.cover('constructs', f)
     acc.count('contract_evals_parse', con.evals.get('parse_script_post', 0))
@@ -159,4 +162,4 @@ def replay(spec, acc):
     if 'prog' not in case:
         acc.note_inconclusive('replay payload has no program (finding-level entry)')
         return
-    run_case(case['prog'], refval.dec(case['init']) if case.get('init') else {}, case.get('pattern'), acc, con, lib, respell=case.get('respell'))
+    run_case(case['prog'], refval.dec(case['init']) if case.get('init') else {}, case.get('pattern'), acc, con, lib, respell=case.get('respell'), debug=bool(case.get('debug')))
